@@ -931,7 +931,7 @@ def gen_reset_design(rnd, size=8):
     spec['sigs'] = mark(spec['sigs'], 0.3)
     spec['vars'] = mark(spec['vars'], 0.3)
     if rnd.random() < 0.45:
-        tg = [o for o in spec['outs'] if o[1] == 'u' and o[0] != 'mk' and o[0] not in ctx.get('pushed', [])]
+        tg = [o for o in spec['outs'] if o[1] == 'u' and o[0] != 'mk' and not o[0].startswith('tap_') and o[0] not in ctx.get('pushed', [])]
         if tg:
             t = rnd.choice(tg)
             k = rnd.randrange(1, 1 << t[2])
